@@ -1,5 +1,5 @@
 (* C15 — property theorems only. Each is closed by [exact] of a lemma of Proofs_*.v. *)
-From Coq Require Import List Arith ZArith QArith Qabs Bool Lia.
+From Coq Require Import List Arith ZArith QArith Qabs Bool Lia Lqa.
 From Gst Require Import lib.QAux lib.LinAlgQ C15.gen.MSS C15.Model C15.ModelOp C15.Spec
                         C15.Proofs_op C15.Proofs_tile C15.Proofs_proj C15.Proofs_std.
 Import ListNotations.
@@ -157,11 +157,11 @@ Print Assumptions C15_standard_inside_exact.
 
 (* MeshEStandard::resetProjMatrix forces the dimensions of the matrix only when the last apex received no weight:
    trailing samples outside the meshing then lose their (empty) rows. Witness: unit square cut in two triangles,
-   samples (3/4, 9/10) and (5, 1/4): one row for two samples. Replayed on the implementation by the check. *)
+   samples (3/4, 7/8) and (5, 1/4): one row for two samples. Replayed on the implementation by the check. *)
 Definition witness_smesh : smesh :=
   {| s_ndim := 2; s_apices := [[0; 0]; [1; 0]; [0; 1]; [1; 1]]; s_meshes := [[0; 1; 2]; [2; 1; 3]]%nat |}.
 Theorem C15_standard_rows_refuted : exists s pts, fst (fst (proj_standard s pts)) <> length pts.
-Proof. exists witness_smesh, [[3 # 4; 9 # 10]; [5; 1 # 4]]. vm_compute. discriminate. Qed.
+Proof. exists witness_smesh, [[3 # 4; 7 # 8]; [5; 1 # 4]]. vm_compute. discriminate. Qed.
 Print Assumptions C15_standard_rows_refuted.
 
 (* ================================================================== polynomial of an operator, precision matrix *)
@@ -229,20 +229,20 @@ Definition ex_turbo : turbo :=
      t_pol := true; t_sel := [true; true; true; true; true; true; true; true; true; true; true; false] |}.
 Example C15_nonvacuous_turbo :
   let sb := selbis ex_turbo in
-  (* node of local coordinates (1/4, 5/8) in the cell (0,0) *)
+  (* sample of local coordinates (1/4, 5/8) in the cell (0,0), sample of local coordinates (3/4, 3/4) in the cell (2,1) *)
   let x := C16.Model.i2c (t_grid ex_turbo) [0; 0]%Z [1 # 4; 5 # 8] true in
-  let y := C16.Model.i2c (t_grid ex_turbo) [2; 1]%Z [1 # 2; 1 # 4] true in
+  let y := C16.Model.i2c (t_grid ex_turbo) [2; 1]%Z [3 # 4; 3 # 4] true in
   (exists idx lam w m, add_weights ex_turbo sb 1 [0; 0]%Z x = Wok idx lam w m /\ all_nonneg lam /\ w = lam /\ idx = [0; 4; 5]%Z) /\
   (exists m, add_weights ex_turbo sb 0 [0; 0]%Z x = Wfail m) /\
   p_found (proj_point ex_turbo sb y) = None /\ p_located (proj_point ex_turbo sb y) = true /\
   all_located ex_turbo sb [x; y].
 Proof.
-  vm_compute. split; [|split; [|split; [|split]]].
-  - eexists _, _, _, _. split; [reflexivity|]. split; [|split; reflexivity]. repeat split; discriminate.
-  - eexists. reflexivity.
-  - reflexivity.
-  - reflexivity.
-  - repeat constructor.
+  cbv zeta. split; [|split; [|split; [|split]]].
+  - vm_compute. eexists _, _, _, _. split; [reflexivity|]. split; [|split; reflexivity]. repeat split; discriminate.
+  - vm_compute. eexists. reflexivity.
+  - vm_compute. reflexivity.
+  - vm_compute. reflexivity.
+  - repeat constructor; vm_compute; reflexivity.
 Qed.
 
 (* a symmetric positive semi-definite shift operator (path graph Laplacian), Lambda = (1, 2, 1/2), P = (1 + S)^2 *)
@@ -254,8 +254,8 @@ Proof.
   intro x. unfold fdot, fmv. cbn [sumn]. unfold get, ex_S. cbn [nth].
   assert (E : forall a b c : Q, 0 + a * (0 + 1 * a + -1 * b + 0 * c) + b * (0 + -1 * a + 2 * b + -1 * c) + c * (0 + 0 * a + -1 * b + 1 * c)
                                == (a - b) * (a - b) + (b - c) * (b - c)) by (intros; ring).
-  rewrite E. assert (0 <= (x 0%nat - x 1%nat) * (x 0%nat - x 1%nat)) by nra. assert (0 <= (x 1%nat - x 2%nat) * (x 1%nat - x 2%nat)) by nra.
-  Lqa.lra.
+  rewrite E. assert (Sq : forall t : Q, 0 <= t * t) by (intro t; nra).
+  pose proof (Sq (x 0%nat - x 1%nat)). pose proof (Sq (x 1%nat - x 2%nat)). lra.
 Qed.
 Example C15_nonvacuous_operator :
   fpd 3 (get (build_Q 3 ex_S [1; 2; 1 # 2] [1; 2; 1])) /\
